@@ -34,6 +34,12 @@ One case = one *fault history* followed by HEAL and a QUIET PERIOD:
                   TAIL x raftMaxTimeout after everything below held for the first time (stability), or when the
                   period is used up.
 
+  even split      kind `even_split` (4 or 6 voters, observers on either half; also a phase inside random histories over
+                  4 voters): the voters fall into two equal halves that cannot talk (silent or noticed) while
+                  elections run - at start-up before anybody leads, or after the leader was lost - both halves tick
+                  in lock-step and are offered different commands; with half of the votes nobody may win.  Coverage
+                  (only; C05 speaks about the time after the heal) records whether both halves ran elections, whether
+                  a node claimed leadership with half of the voters, and two leaders of one term.
   long walk back  kind `long_walkback` (and `stale_leader` with a short leaderFallbackTimeout + a minority down in the
                   random stream): the returning old leader is NEEDED for the majority and answers nothing but
                   rejections for longer than leaderFallbackTimeout (0.25 / 0.5 / 1 s against a stale tail of 6 / 20 /
@@ -661,6 +667,65 @@ def d_old_long_vs_new_short(h, var):
     h.run(var["alone"], var["alone_dt"])            # every link is dead: nothing is delivered, everybody ticks
 
 
+def _split_phase(h, A, B, mode, rounds, steps, dt, rng=None):
+    """an even cluster falls into two halves that cannot talk (silent: messages are lost, the connections stay up)
+    WHILE ELECTIONS RUN; both halves tick in lock-step and get different commands.  Returns nothing; records for
+    coverage which half sent `request_vote` during the split and who claimed leadership with half of the voters."""
+    s = h.sim
+    inA = set(A)
+    cross = [(a, b) for (a, b) in h.pairs if (a in inA) != (b in inA)]
+    for (a, b) in cross:
+        h.sever(a, b, mode)
+    n0 = len(s.sent)
+    claimed = set()
+    for rnd in range(rounds):
+        h.run(steps, dt)                        # cross links are dead: each half lives alone, same clock pace
+        for side in (A, B):
+            ls = [v for v in side if v in h.V and s.objs[v]._isLeader()]
+            claimed.update((v, s.objs[v]._getTerm()) for v in ls)
+            tgt = ls[0] if ls else side[rnd % len(side)]
+            h.submit(tgt, "tiny", 1 + rnd % 2)
+        h.run(2, dt)
+    voted = set(a for (a, b, m) in s.sent[n0:] if m.get("type") == "request_vote")
+    rec = h.notes.setdefault("split", {"both_halves_voted": 0, "phases": 0, "leader_with_half": 0, "same_term_leaders": 0})
+    rec["phases"] += 1
+    rec["both_halves_voted"] += 1 if (voted & inA and voted & set(B)) else 0
+    rec["leader_with_half"] += len(claimed)
+    termsA = set(t for (v, t) in claimed if v in inA)
+    rec["same_term_leaders"] += 1 if termsA & set(t for (v, t) in claimed if v not in inA) else 0
+
+
+def d_even_split(h, var):
+    """EVEN number of voters (4, 6) split exactly in half while elections run: at start-up before anybody leads
+    (`startup`), or after a normal start when the leader's half and the other half lose each other (`later`); the
+    cut is silent or noticed; observers hang on either half.  With half of the votes nobody may win; different
+    commands are offered to both halves; then everything heals."""
+    n = len(h.V)
+    A = h.V[:n // 2] + [o for k, o in enumerate(h.O) if k % 2 == var.get("obs_side", 0)]
+    B = [x for x in h.A if x not in A]
+    h.connect_all()
+    if var["variant"] == "later":
+        L = h.elect()
+        if L is None:
+            return
+        h.submit(L, "mid", 3)
+        h.run(5)
+        if var.get("leader_half"):                      # which half the leader falls into
+            x = [v for v in h.V if v != L]
+            Av = [L] + x[:n // 2 - 1]
+            A = Av + [o for o in A if o in h.O]
+            B = [y for y in h.A if y not in A]
+    h.notes["lagging"] = B[0]
+    _split_phase(h, A, B, var["mode"], var["rounds"], var["steps"], var.get("dt", DT))
+    if var.get("second"):                               # heal for a moment, split along another line
+        for (a, b) in h.pairs:
+            h.ev("connect", a, b)
+        h.run(var["second"])
+        A2 = h.V[::2] + [o for o in A if o in h.O]
+        B2 = [y for y in h.A if y not in A2]
+        _split_phase(h, A2, B2, var["mode"], max(1, var["rounds"] // 2), var["steps"], var.get("dt", DT))
+
+
 def d_long_walkback(h, var):
     """a former leader comes back with an uncommitted tail of an OLDER term while the only other reachable voter(s)
     hold a LONGER log of a newer term; the remaining voters are down for good, so the returning node is NEEDED for the
@@ -875,7 +940,21 @@ def d_random(h, var):
     w_restart = rng.choice([0.0, 0.02, 0.04]) if (h.O or h.p.get("journal")) else 0.0
     chans = [(a, b) for (a, b) in h.pairs] + [(b, a) for (a, b) in h.pairs]
     count = 0
+    split_at = rng.randrange(0, max(1, n_ev)) if (var.get("even_split") and len(h.V) % 2 == 0 and len(h.V) >= 4) else None
     while count < n_ev:
+        if count == split_at:
+            vs = list(h.V)
+            rng.shuffle(vs)
+            A = vs[:len(vs) // 2] + [o for o in h.O if rng.random() < 0.5]
+            B = [x for x in h.A if x not in A]
+            l = h.leader()
+            if l is not None and rng.random() < 0.5:
+                h.isolate([l], "silent")                # the leader is lost first: elections run during the split
+            _split_phase(h, A, B, rng.choice(["silent", "silent", "noticed"]), rng.randrange(2, 6), rng.choice([8, 16, 24]),
+                         rng.choice([DT, DT, 0.125]))
+            if rng.random() < 0.5:
+                for (a, b) in h.pairs:
+                    h.ev("connect", a, b)
         count += 1
         r = rng.random()
         if r < w_net:
@@ -968,7 +1047,7 @@ def d_random(h, var):
 GEN = {"partition": d_partition, "midburst": d_midburst, "stale_leader": d_stale_leader,
        "lag_snapshot": d_lag_snapshot, "uneven": d_uneven, "compactions": d_compactions,
        "term_inflation": d_term_inflation, "random": d_random, "old_long_vs_new_short": d_old_long_vs_new_short,
-       "long_walkback": d_long_walkback, "observer_restart": d_observer_restart, "voter_restart_journal": d_voter_restart_journal,
+       "even_split": d_even_split, "long_walkback": d_long_walkback, "observer_restart": d_observer_restart, "voter_restart_journal": d_voter_restart_journal,
        "voter_restart_leader_stays": d_voter_restart_leader_stays}
 
 
@@ -1202,10 +1281,12 @@ def scenario(repo, p, workdir=None):
     refpos = s.objs[ref].raftLastApplied
     df = _differ(h, ref, [i for i in h.C if s.objs[i].raftLastApplied == refpos])
     if df is not None:
+        at = next((j for j, (x, y) in enumerate(zip(df[1], df[2])) if x != y), min(len(df[1]), len(df[2])))
         viol.append({"signature": "convergence:states-differ",
-                     "what": "%s and %s both applied position %d, but %s holds %d commands (last %r) and %s holds %d (last %r) after %s"
-                             % (df[0], ref, refpos, df[0], len(df[1]), [str(x)[:12] for x in df[1][-3:]], ref, len(df[2]),
-                                [str(x)[:12] for x in df[2][-3:]], waited)})
+                     "what": "%s and %s both applied position %d, but their states differ from command no. %d on: %s holds %d "
+                             "commands (there %r), %s holds %d (there %r) after %s"
+                             % (df[0], ref, refpos, at + 1, df[0], len(df[1]), [str(x)[:12] for x in df[1][at:at + 2]], ref,
+                                len(df[2]), [str(x)[:12] for x in df[2][at:at + 2]], waited)})
     if s.errors:
         viol.append({"signature": "tick:exception-escapes",
                      "what": "%s on %s: %s" % (s.errors[0][1], s.errors[0][0], s.errors[0][2])})
@@ -1271,6 +1352,8 @@ def scenario(repo, p, workdir=None):
                 rs["voter_stateless_match_beyond_log_end"] += 1
     cov["restarts"] = rs
     cov["variant"] = (p.get("var") or {}).get("variant")
+    cov["split"] = dict(h.notes.get("split") or {})
+    cov["split_mode"] = (p.get("var") or {}).get("mode")
     h.close()
     return {"viol": viol, "events": h.events, "cov": cov,
             "resolved": {"early": early_node, "post": post_node, "down": list(h.down)}}
@@ -1447,6 +1530,21 @@ def directed_params(rng):
                         "seed": rng.randrange(10 ** 6), "post": ["leader", "follower"][k % 2], "early": ["lagging", "leader"][k % 2],
                         "post_k": rng.randrange(4), "heal_all": True, "dumpfile": False,
                         "down": "notes", "down_mode": ["noticed", "silent"][k % 2], "down_ticks": k % 3 != 1, "down_fresh": True})
+    # an even cluster split exactly in half while elections run
+    k = 0
+    for variant in ("startup", "later"):
+        for mode in ("silent", "noticed"):
+            for rep in range(3):
+                k += 1
+                conf = draw_conf(rng, "even_split")
+                conf["leaderFallbackTimeout"] = [0.5, 1.0, 30.0][k % 3]
+                out.append({"kind": "even_split", "nv": 6 if k % 6 == 0 else 4, "no": [0, 1, 2][k % 3], "conf": conf,
+                            "var": {"variant": variant, "mode": mode, "rounds": [3, 5, 8][rep], "steps": [16, 24, 12][rep],
+                                    "dt": [DT, DT, 0.125][k % 3], "obs_side": k % 2, "leader_half": k % 2 == 0,
+                                    "second": [0, 0, 6][rep] if variant == "later" else 0},
+                            "seed": rng.randrange(10 ** 6), "post": ["leader", "follower", "observer"][k % 3],
+                            "early": ["lagging", "follower"][k % 2], "post_k": rng.randrange(4), "heal_all": k % 2 == 0,
+                            "dumpfile": False, "down": "none"})
     # restarts.  A stateless restart of a VOTER appears only in `voter_restart_leader_stays` (never in random histories,
     # never followed by another fault): with a later leader change the replicas could legitimately differ.
     k = 0
@@ -1491,13 +1589,17 @@ def random_params(rng, n):
     out = []
     kinds = ["random", "random", "random", "lag_snapshot", "stale_leader", "partition", "midburst", "uneven",
              "compactions", "term_inflation", "old_long_vs_new_short", "observer_restart", "voter_restart_journal",
-             "voter_restart_leader_stays", "long_walkback"]
+             "voter_restart_leader_stays", "long_walkback", "even_split"]
     modes = ["noticed", "silent", "inside", "outside"]
     for _ in range(n):
         kind = rng.choice(kinds)
         nv = rng.choice([2, 3, 3, 4, 5, 5])
         if kind in ("old_long_vs_new_short", "voter_restart_journal", "voter_restart_leader_stays", "long_walkback"):
             nv = rng.choice([3, 4, 5])
+        if kind == "even_split":
+            nv = rng.choice([4, 4, 4, 6])
+        if kind == "random" and rng.random() < 0.12:
+            nv = 4
         no = rng.choice([0, 0, 1, 1, 2])
         if kind == "observer_restart":
             no = rng.choice([1, 1, 2])
@@ -1505,6 +1607,12 @@ def random_params(rng, n):
             no = max(no, 1)
         if kind == "random":
             var = {"n": rng.choice([30, 60, 100, 160])}
+            if nv == 4 and rng.random() < 0.45:
+                var["even_split"] = True            # a 2|2 split with submissions on both sides somewhere in the history
+        elif kind == "even_split":
+            var = {"variant": rng.choice(["startup", "startup", "later"]), "mode": rng.choice(["silent", "silent", "noticed"]),
+                   "rounds": rng.randrange(2, 9), "steps": rng.choice([8, 12, 16, 24, 32]), "dt": rng.choice([DT, DT, 0.125, 0.03125]),
+                   "obs_side": rng.randrange(2), "leader_half": rng.random() < 0.5, "second": rng.choice([0, 0, 4, 12])}
         elif kind == "partition":
             var = {"mode": rng.choice(modes), "with_leader": rng.random() < 0.6, "rounds": rng.choice([1, 2, 4, 6]),
                    "late_notice": rng.random() < 0.5, "obs_with_group": rng.random() < 0.5}
@@ -1551,6 +1659,8 @@ def random_params(rng, n):
             down = "notes" if rng.random() < 0.85 else "none"
         elif kind == "long_walkback":
             down = "notes"
+        elif kind == "even_split":
+            down = "none"
         elif kind == "voter_restart_leader_stays":
             down = "none"                               # no fault at all after the restart
         else:
@@ -1732,7 +1842,8 @@ def _run(ctx, workdir):
            "compactions": 0, "corpus_histories": 0, "planned": len(ps), "errors": 0,
            "violating_histories": {}, "early_command_outcome": {},
            "healed_with_minority_down": {"histories": 0, "by_kind": {}}, "connected_log_shapes_at_heal": {},
-           "old_long_vs_new_short": {}, "restarts": {}, "walkback_longer_than_fallback": {}, "max_walkback_rounds": 0}
+           "old_long_vs_new_short": {}, "restarts": {}, "walkback_longer_than_fallback": {}, "max_walkback_rounds": 0,
+           "even_split": {}}
     distinct = set()
     viols, sigs = [], set()
     errors = []
@@ -1767,6 +1878,18 @@ def _run(ctx, workdir):
                     _inc(cov["old_long_vs_new_short"], k_)
                     if c["down_voters"]:
                         _inc(cov["old_long_vs_new_short"], k_ + "_bare_majority_%d" % c["nv"])
+        sp = c.get("split") or {}
+        if sp.get("phases"):
+            es = cov["even_split"]
+            _inc(es, "histories_%s" % c["kind"])
+            if sp.get("both_halves_voted"):
+                _inc(es, "both_halves_ran_elections_%s" % c["kind"])
+                if c["kind"] == "even_split":
+                    _inc(es, "both_halves_ran_elections_%s_%s_%dv" % (c["variant"], c["split_mode"], c["nv"]))
+            if sp.get("leader_with_half"):            # (coverage only: C05 speaks about the time after the heal)
+                _inc(es, "histories_where_a_node_led_with_half_of_the_voters")
+            if sp.get("same_term_leaders"):
+                _inc(es, "histories_with_two_leaders_of_one_term_during_split")
         if c["walkback_longer_than_fallback"]:
             _inc(cov["walkback_longer_than_fallback"], c["kind"])
             _inc(cov["walkback_longer_than_fallback"], "T=%s" % (p.get("conf") or {}).get("leaderFallbackTimeout"))
@@ -1875,6 +1998,13 @@ def _run(ctx, workdir):
                        ("leader_stays_dump_only_match_beyond_log_end", 5, 80)):
         if rs.get(k_, 0) < ctx.scale(q_, t_):
             floors.append("restarts: %s = %d" % (k_, rs.get(k_, 0)))
+    es = cov["even_split"]
+    if es.get("both_halves_ran_elections_even_split", 0) < ctx.scale(6, 150):
+        floors.append("even_split histories in which both halves ran elections during the split: %d"
+                      % es.get("both_halves_ran_elections_even_split", 0))
+    for v_ in ("startup_silent_4v", "startup_noticed_4v", "later_silent_4v", "later_noticed_4v"):
+        if es.get("both_halves_ran_elections_" + v_, 0) < 1:
+            floors.append("even_split variant %s never had elections in both halves" % v_)
     if cov["walkback_longer_than_fallback"].get("long_walkback", 0) < ctx.scale(5, 6):
         floors.append("long_walkback histories whose walk back outlasted leaderFallbackTimeout: %d"
                       % cov["walkback_longer_than_fallback"].get("long_walkback", 0))
